@@ -162,26 +162,22 @@ func TestVerifN2HRedirectBin(t *testing.T) {
 	stub.hang = hl.Addr().String()
 	go stub.serveHang(hl)
 
-	// the committed witnesses first (corpus/C20/known/redirect_*.txt: `post mode naddr world bodyhex` per line)
+	// the committed witnesses first (corpus/C20/known/redirect_drops_body.txt: `post mode naddr world bodyhex` per line)
 	var corpus []vfRdCase
-	if p := os.Getenv("VF_E8_REDIRECT_CORPUS"); p != "" {
-		if b, err := os.ReadFile(p); err == nil {
-			for _, l := range strings.Split(string(b), "\n") {
-				f := strings.Fields(l)
-				if len(f) != 5 || strings.HasPrefix(l, "#") {
-					continue
-				}
-				var na int
-				fmt.Sscanf(f[2], "%d", &na)
-				w := strings.Split(f[3], ",")
-				for len(w) < 5 {
-					w = append(w, "500")
-				}
-				var body []byte
-				fmt.Sscanf(f[4], "%x", &body)
-				corpus = append(corpus, vfRdCase{f[0] == "1", f[1], na, w[:5], body})
-			}
+	for _, l := range vfKnownLines("follows-redirect-drops-body") {
+		f := strings.Fields(l)
+		if len(f) != 5 {
+			continue
 		}
+		var na int
+		fmt.Sscanf(f[2], "%d", &na)
+		w := strings.Split(f[3], ",")
+		for len(w) < 5 {
+			w = append(w, "500")
+		}
+		var body []byte
+		fmt.Sscanf(f[4], "%x", &body)
+		corpus = append(corpus, vfRdCase{f[0] == "1", f[1], na, w[:5], body})
 	}
 	type cfg struct {
 		post  bool
